@@ -51,4 +51,29 @@ def specKNN [Bounded O] [DecidableEq O] (s : List O) (k : Nat) (px py : Rat) (re
   sortedBy (odist px py) objs &&
   objs.all fun o => (msub s objs).all fun o' => decide (odist px py o ≤ odist px py o')
 
+/-! ### the same two predicates up to a relative tolerance `eps` on squared distances
+
+Used by the judge ONLY for the families whose coordinates are not dyadic (class `…specOnly…`): there the
+float64 squared distances that the code compares carry a few ulp (2^-52) of rounding, so "minimum" can be
+decided by the code only up to that; the judge takes `eps = 2^-40`.  `eps = 0` is the exact Spec
+(`C12_specTol_zero`).  A panic, a nil / foreign / deleted object, a wrong slot count or an answer that is
+farther than the minimum by more than the tolerance is a violation whatever `eps`. -/
+
+def specNNTol [Bounded O] [DecidableEq O] (eps : Rat) (s : List O) (px py : Rat) (o : O) : Bool :=
+  decide (o ∈ s) && s.all fun o' => decide (odist px py o ≤ odist px py o' * (1 + eps))
+
+def sortedByTol (eps : Rat) (f : O → Rat) : List O → Bool
+  | [] => true
+  | [_] => true
+  | a :: b :: r => decide (f a ≤ f b * (1 + eps)) && sortedByTol eps f (b :: r)
+
+def specKNNTol [Bounded O] [DecidableEq O] (eps : Rat) (s : List O) (k : Nat) (px py : Rat) (res : List (Option O)) : Bool :=
+  let objs := res.filterMap id
+  decide (res.length = k) &&
+  decide (res = objs.map some ++ List.replicate (k - objs.length) none) &&
+  decide (objs.length = min k s.length) &&
+  decide ((msub s objs).length + objs.length = s.length) &&
+  sortedByTol eps (odist px py) objs &&
+  objs.all fun o => (msub s objs).all fun o' => decide (odist px py o ≤ odist px py o' * (1 + eps))
+
 end GeomV.C12
